@@ -11,8 +11,8 @@ import time
 import vlib
 from vlib import ToolError, log
 
-FAMILIES_QUICK = [("prim", 1), ("object", 1), ("tuple", 1), ("union", 1), ("tpl", 1), ("nonjson", 1), ("format", 1), ("disc", 1), ("util", 1)]
-FAMILIES_THOROUGH = [("prim", 2), ("object", 2), ("tuple", 2), ("union", 2), ("tpl", 2), ("nonjson", 2), ("format", 2), ("disc", 2), ("util", 2)]
+FAMILIES_QUICK = [("prim", 1), ("object", 1), ("tuple", 1), ("union", 1), ("tpl", 1), ("nonjson", 1), ("format", 1), ("disc", 1), ("util", 1), ("twin", 0)]
+FAMILIES_THOROUGH = [("prim", 2), ("object", 2), ("tuple", 2), ("union", 2), ("tpl", 2), ("nonjson", 2), ("format", 2), ("disc", 2), ("util", 2), ("twin", 1)]
 
 
 def generate(families, tag, deep=None):
